@@ -66,17 +66,21 @@ def replay_backward(item) -> dict:
     # Sum
     ones = dict(scn)
     ones["w"] = [1] * len(scn["w"])
-    run = BackwardRun(ones, rng, dtype=dtype, aggregator=Sum())
-    runs += 1
-    if run.exc is None:
-        msgs = twin_autograd(ones, run)
-        if msgs:
-            fails.append({"kind": "sum", "what": "Sum(): " + "; ".join(msgs[:3]), "meta": run.meta})
-    else:
-        fails.append({"kind": "raised", "what": f"backward(Sum) raised {type(run.exc).__name__}", "meta": run.meta})
-    # Mean (float64 only: the comparison is against the exact rational)
-    run = BackwardRun(scn, rng, dtype=torch.float64, aggregator=Mean())
-    runs += 1
+    # one aggregator OBJECT serves the calls of this case in both element types (a user builds Sum() / Mean() once)
+    the_sum, the_mean = Sum(), Mean()
+    for dt in (dtype, torch.float32 if dtype == torch.float64 else torch.float64):
+        run = BackwardRun(ones, rng, dtype=dt, aggregator=the_sum)
+        runs += 1
+        if run.exc is None:
+            msgs = twin_autograd(ones, run)
+            if msgs:
+                fails.append({"kind": "sum", "what": "Sum(): " + "; ".join(msgs[:3]), "meta": run.meta})
+        else:
+            fails.append({"kind": "raised", "what": f"backward(Sum) raised {type(run.exc).__name__}: {str(run.exc)[:120]}", "meta": run.meta})
+    # Mean (the comparison is against the exact rational in float64; the float32 call only has to leave the object usable)
+    BackwardRun(scn, rng, dtype=torch.float32, aggregator=the_mean)
+    run = BackwardRun(scn, rng, dtype=torch.float64, aggregator=the_mean)
+    runs += 2
     if run.exc is None:
         msgs = _mean_check(run.after_grads, run.before_grads, fmap(scn["jac"]), len(scn["w"]), "Mean():")
         if msgs:
@@ -108,14 +112,16 @@ def replay_mtl(item) -> dict:
             fails.append({"kind": "constant", "what": "Constant(w): " + "; ".join(msgs[:3]), "meta": run.meta})
     ones = dict(scn)
     ones["w"] = [1] * len(scn["w"])
-    run = MtlRun(ones, rng, dtype=dtype, aggregator=Sum())
-    runs += 1
-    if run.exc is None:
-        msgs = twin_autograd_mtl(run)
-        if msgs:
-            fails.append({"kind": "sum", "what": "Sum(): " + "; ".join(msgs[:3]), "meta": run.meta})
-    else:
-        fails.append({"kind": "raised", "what": f"mtl_backward(Sum) raised {type(run.exc).__name__}", "meta": run.meta})
+    the_sum = Sum()
+    for dt in (dtype, torch.float32 if dtype == torch.float64 else torch.float64):
+        run = MtlRun(ones, rng, dtype=dt, aggregator=the_sum)
+        runs += 1
+        if run.exc is None:
+            msgs = twin_autograd_mtl(run)
+            if msgs:
+                fails.append({"kind": "sum", "what": "Sum(): " + "; ".join(msgs[:3]), "meta": run.meta})
+        else:
+            fails.append({"kind": "raised", "what": f"mtl_backward(Sum) raised {type(run.exc).__name__}: {str(run.exc)[:120]}", "meta": run.meta})
     from ..mtl_replay import precision_run_mtl
     msgs = precision_run_mtl(scn, rng)
     runs += 1
